@@ -421,6 +421,14 @@ func (c *control) scanDirBlock(buf []byte, pos int, dirName string, open, close 
 				at = true
 			case open:
 				pos = c.scanDirBlock(buf, pos, dirName, open, close, colonOk) + 2
+				if buf[pos-1] == ':' { // the nested block was closed by ~:}
+					pos++
+				}
+				tilde = false
+			case '-', '+', '0', '1', '2', '3', '4', '5', '6', '7', '8', '9', ',', '#', 'v', 'V':
+				// prefix parameter, remain in tilde
+			case '\'':
+				pos++ // quoted character parameter, remain in tilde
 			case close:
 				if at || (colon && !colonOk) {
 					c.invalidDir(buf, pos)
@@ -1507,11 +1515,17 @@ func (c *control) scanCond(buf []byte, pos int) ([]string, string, int) {
 				if colon {
 					defNext = true
 				}
+				tilde = false
 			case '[':
 				// This ends up with a double scan, maybe fine for the rare
 				// case where it occurs.
 				_, _, pos = c.scanCond(buf, pos)
 				pos += 2
+				tilde = false
+			case '-', '+', '0', '1', '2', '3', '4', '5', '6', '7', '8', '9', ',', '#', 'v', 'V':
+				// prefix parameter, remain in tilde
+			case '\'':
+				pos++ // quoted character parameter, remain in tilde
 			case ']':
 				if at || colon {
 					c.invalidDir(buf, pos)
